@@ -70,6 +70,7 @@ type fakeOut struct {
 	id   int
 	log  *playLog
 	open bool
+	fail bool // every Send fails with drivers.ErrPortClosed (ports 90.. of a PRIOR play)
 }
 
 func (f *fakeOut) Open() error             { f.open = true; return nil }
@@ -79,6 +80,9 @@ func (f *fakeOut) Number() int             { return f.id }
 func (f *fakeOut) String() string          { return fmt.Sprintf("fake-%d", f.id) }
 func (f *fakeOut) Underlying() interface{} { return nil }
 func (f *fakeOut) Send(b []byte) error {
+	if f.fail {
+		return drivers.ErrPortClosed
+	}
 	at := time.Since(f.log.t0).Microseconds() // truncated: never later than the real instant
 	if at > 1<<30 {
 		at = 1 << 30
@@ -110,11 +114,19 @@ func runPlay(rec *PlayRec) {
 		rec.Tracks[i] = []Ev{}
 	}
 	p := hx.Catch(func() {
+		// the scheduled time of an event is the time of its tick by the file's tempo map: SMF.TimeAt of a SEPARATE read of the
+		// file (C11 is the property that TimeAt is the tempo map's integral); the ticks come from the track iterator
+		ref, rerr := smf.ReadFrom(bytes.NewReader(rec.File))
+		if rerr != nil {
+			hx.Die("second read of the file failed", rerr)
+		}
 		all.Do(func(te smf.TrackEvent) {
-			if te.AbsMicroSeconds < 0 || te.AbsMicroSeconds > 1<<30 {
-				hx.Die("scheduled time out of the harness' range", te.AbsMicroSeconds)
+			us := ref.TimeAt(te.AbsTicks)
+			if us < 0 || us > 1<<30 {
+				// out of range (only a broken tempo lookup gets here): carried as 2^30, later than any send
+				us = 1 << 30
 			}
-			rec.Tracks[te.TrackNo] = append(rec.Tracks[te.TrackNo], Ev{Us: te.AbsMicroSeconds, M: append(hx.B{}, te.Message...)})
+			rec.Tracks[te.TrackNo] = append(rec.Tracks[te.TrackNo], Ev{Us: us, M: append(hx.B{}, te.Message...)})
 		})
 	})
 	if p != "" {
@@ -134,7 +146,7 @@ func runPlay(rec *PlayRec) {
 		plog := &playLog{t0: time.Now()}
 		pouts := map[int]drivers.Out{}
 		for _, kv := range rec.Prior {
-			pouts[kv.Tr] = &fakeOut{id: kv.Port, log: plog, open: true}
+			pouts[kv.Tr] = &fakeOut{id: kv.Port, log: plog, open: true, fail: kv.Port >= 90} // (an earlier play whose sends FAILED must not matter either)
 		}
 		if pp := hx.Catch(func() { rd.MultiPlay(pouts) }); pp != "" {
 			rec.Panic = "prior play: " + pp
@@ -481,6 +493,12 @@ func (g *gen) file(rec *PlayRec) {
 		}
 		if r.Intn(2) == 0 || len(rec.Prior) == 0 {
 			rec.Prior = append(rec.Prior, PortKV{-1, 88})
+		}
+		if r.Intn(2) == 0 { // ... and its ports refused every message
+			g.feat["prior_play_failed"] = true
+			for i := range rec.Prior {
+				rec.Prior[i].Port = 90 + i%4
+			}
 		}
 	}
 	rec.Feat = []string{}
